@@ -451,6 +451,9 @@ impl World {
                 break;
             }
             self.step(i, op);
+            if std::env::var("VH_TRACE").is_ok() {
+                eprintln!("op {i} {:?}\n    flushes {} screen {:?}", op, self.spy.flushes(), self.spy.state().screen.all_rows().iter().map(|r| r.trim_end().to_string()).collect::<Vec<_>>());
+            }
         }
     }
 
@@ -1428,7 +1431,17 @@ impl World {
             if posn(id).is_some() || *truncated {
                 return Ok(());
             }
-            let Some(lo) = bar.m.lo else { return Ok(()) };
+            let Some(lo) = bar.m.lo else {
+                // no frame of this bar has been flushed yet, so it need not be there - but it may well have
+                // been rendered into its member state by a request the limiter then declined to flush; if
+                // such a rendering does not fit, the frame is legitimately cut in front of everything behind
+                if !bar.m.snaps.is_empty()
+                    && (0..=bar.m.cur()).any(|k| !bar.m.snaps[k].is_empty() && generous_rows + phys_rows(&bar.m.snaps[k][0], width).len() > height)
+                {
+                    *truncated = true;
+                }
+                return Ok(());
+            };
             let hi = bar.m.cur();
             let lo = lo.max(bar.m.shown.unwrap_or(0)).min(hi);
             if (lo..=hi).any(|k| bar.m.snaps[k].is_empty()) {
